@@ -334,6 +334,92 @@ def decide(pid, flags, trace, known, seed, scenario_of, drift_ok=True):
     return violations, known_seen, len(drift)
 
 
+
+# ----------------------------------------------------------------------------- binding self-test
+
+def _int_leaves(o, path=()):
+    """Paths of integer/boolean leaves of a JSON value (bool flips, ints are incremented)."""
+    out = []
+    if isinstance(o, bool) or isinstance(o, int):
+        out.append(path)
+    elif isinstance(o, dict):
+        for k in sorted(o):
+            out += _int_leaves(o[k], path + (k,))
+    elif isinstance(o, list):
+        for i, v in enumerate(o):
+            out += _int_leaves(v, path + (i,))
+    return out
+
+
+def _bump(o, path):
+    for k in path[:-1]:
+        o = o[k]
+    v = o[path[-1]]
+    o[path[-1]] = (not v) if isinstance(v, bool) else v + 1
+    return v
+
+
+def binding_selftest(F, trace, seed, k=4, timeout=300):
+    """Is the monitor really bound to what was observed?  Takes k recorded traces of the run that has just been judged
+    clean, corrupts ONE observed value in each (an integer/boolean leaf of `obs` of a random step: +1 / flipped; or one
+    state-changing step is dropped), and runs the same TLA+ monitor on each corrupted trace.  A corruption is `rejected`
+    when the monitor flags the corrupted step or the step after it (property flag or DRIFT flag) or TLC cannot evaluate
+    the corrupted record at all.  Nothing here contributes to a verdict: the counts go to the evidence file, and a run in
+    which no corruption at all is rejected is reported on stderr."""
+    import random
+    import concurrent.futures as cf
+    rnd = random.Random(int(seed) * 7919 + 17)
+    by = {}
+    for r in trace:
+        by.setdefault(str(r["t"]), []).append(r)
+    tids = [t for t, rs in by.items() if len(rs) >= 3 and rs[0].get("act") == "reset"]
+    rnd.shuffle(tids)
+    jobs = []
+    for t in tids:
+        if len(jobs) >= k:
+            break
+        rs = json.loads(json.dumps(by[t]))
+        kind = "drop" if len(jobs) == k - 1 else "bump"
+        if kind == "drop":
+            cand = [i for i in range(1, len(rs) - 1) if rs[i].get("res") == "HALT" and rs[i].get("obs") != rs[i - 1].get("obs")
+                    and rs[i + 1].get("act") != "reset"]
+            if not cand:
+                continue
+            i = rnd.choice(cand)
+            what = "dropped step %d (%s)" % (i, rs[i].get("act"))
+            del rs[i]
+            lines = (i + 1,)          # 1-based line of the step that now follows the gap
+        else:
+            cand = [i for i in range(1, len(rs)) if isinstance(rs[i].get("obs"), (dict, list)) and _int_leaves(rs[i]["obs"])]
+            if not cand:
+                continue
+            i = rnd.choice(cand)
+            path = rnd.choice(_int_leaves(rs[i]["obs"]))
+            old = _bump(rs[i]["obs"], path)
+            what = "obs.%s of step %d (%s): %r corrupted" % (".".join(map(str, path)), i, rs[i].get("act"), old)
+            lines = (i + 1, i + 2)
+        p = os.path.join(scratch(), "selftest%d.ndjson" % len(jobs))
+        with open(p, "w") as f:
+            for r in rs:
+                f.write(json.dumps(r) + "\n")
+        jobs.append((p, kind, what, lines))
+
+    def one(job):
+        p, kind, what, lines = job
+        try:
+            fl, done, dt = tlc_monitor(F.monitor[0], F.monitor[1], p, constants=F.monitor_constants, timeout=timeout)
+        except Inconclusive:
+            return dict(kind=kind, what=what, rejected=True, how="TLC cannot evaluate the corrupted record")
+        hit = [f for f in fl if f["line"] in lines]
+        return dict(kind=kind, what=what, rejected=bool(hit), how=",".join(sorted(set(f["prop"] + ":" + f["pred"] for f in hit)))[:200])
+    with cf.ThreadPoolExecutor(max_workers=4) as ex:
+        res = list(ex.map(one, jobs))
+    rej = sum(1 for r in res if r["rejected"])
+    log("binding self-test: %d of %d single-value corruptions of recorded traces rejected by the monitor" % (rej, len(res)))
+    if res and rej == 0:
+        log("WARNING: no corruption was rejected - the monitor may not be bound to the observations")
+    return dict(corruptions=len(res), rejected=rej, details=res)
+
 # ----------------------------------------------------------------------------- generic family pipeline
 
 class Family:
@@ -479,6 +565,11 @@ def run_family(F, pid, tier, seed, replay=None):
                tlc_scenarios=len(scs), random_scenarios=nrand,
                monitor_flags_total=len([f for f in flags_all if f["prop"] == pid]))
     cov.update(F.extra_coverage(trace_all, flags_all))
+    if replay is None and not violations and os.environ.get("VERIF_SELFTEST", "1") != "0":
+        try:
+            cov["binding_selftest"] = binding_selftest(F, trace_all, seed)
+        except Exception as e:  # never part of a verdict
+            cov["binding_selftest"] = dict(error=str(e)[:300])
     if replay is None:
         write_evidence(pid, tier, seed, F.level, cov, time.time() - t0, len(violations), F.assume)
     return 1 if violations else 0
